@@ -109,6 +109,18 @@ def rebaseline():
             return 3
         out[unit_key(u)] = sorted({x["name"] for x in r["results"] if x["verdict"] == "discharged" and x["kind"] != "cover"})
     write_json(os.path.join(HERE, "baseline", "obligations.json"), out)
+    # the module-level functions that exist today: a NEW module-level helper called by a function under contract is not
+    # run natively (it could touch the real module state behind the contract's model) - the caller becomes undecided
+    import ast
+    import importlib
+
+    mods = {}
+    for mod_, name_, args_ in units:
+        c_ = getattr(importlib.import_module(mod_), name_)(*args_)
+        if c_.module not in mods:
+            tree = ast.parse(open(os.path.join(REPO, *c_.module.split(".")) + ".py").read())
+            mods[c_.module] = sorted(n.name for n in tree.body if isinstance(n, (ast.FunctionDef, ast.AsyncFunctionDef)))
+    write_json(os.path.join(HERE, "baseline", "module_functions.json"), mods)
     print("baseline written:", sum(len(v) for v in out.values()), "obligation names in", len(out), "functions")
     return 0
 
